@@ -102,7 +102,7 @@ class Indexing(AH.ArrayHistory):
                     'value': {'k': rng.choice(['scalar', 'scalar', 'match', 'match', 'lastaxis', 'wrongshape', 'float_into_int']),
                               'vseed': rng.getrandbits(32), 'dtype': rng.choice(['same', 'same', D.pick_dtype(rng)])}}
         if k == 'ctx':
-            return {'op': 'ctx', 'do': rng.choice(['enter', 'exit', 'exit'])}
+            return {'op': 'ctx', 'do': rng.choice(['enter', 'enter', 'exit', 'exit', 'enter_rplus_on_r', 'badmode'])}
         saved, self.weights = self.weights, {x: (1 if x == k else 0) for x in w}
         try:
             return super().gen_op(rng)
@@ -184,6 +184,9 @@ class _IState(AH._State):
     def close_ctx(self):
         while self.ctx:
             self.ctx.pop().__exit__(None, None, None)
+        if getattr(self, 'rplus_ctx_on_r', False):
+            self.rplus_ctx_on_r = False
+            self.h.accessmode = 'r+'
 
     def close(self):
         try:
@@ -193,6 +196,32 @@ class _IState(AH._State):
         self.h = None
 
     def do_ctx(self, op):
+        if op['do'] == 'badmode':
+            # an invalid access mode is refused; the refusal must not leave anything open
+            self.close_ctx()
+            try:
+                with self.h.open_array(accessmode='w'):
+                    pass
+                raise Viol('index.ctx', 'invalid_accessmode_accepted', '')
+            except Viol:
+                raise
+            except Exception:
+                pass
+            self.probe('ctx_invalid_mode_refused')
+            self.log('ctx', 'badmode')
+            return
+        if op['do'] == 'enter_rplus_on_r':
+            # the documented way of writing through a read-only object: with a.open_array(accessmode='r+'): a[i] = v
+            self.close_ctx()
+            self.h.accessmode = 'r'
+            self.mode = 'r+'          # writes are owed while the r+ context is open (it is closed before the mode matters again)
+            cm = self.h.open_array(accessmode='r+')
+            cm.__enter__()
+            self.ctx.append(cm)
+            self.rplus_ctx_on_r = True
+            self.probe('rplus_context_on_readonly_object')
+            self.log('ctx', 'enter_rplus_on_r')
+            return
         if op['do'] == 'enter':
             if len(self.ctx) < 2:
                 cm = self.h.open_array()
@@ -201,6 +230,9 @@ class _IState(AH._State):
                 self.probe('ctx_entered')
         elif self.ctx:
             self.ctx.pop().__exit__(None, None, None)
+            if not self.ctx and getattr(self, 'rplus_ctx_on_r', False):
+                self.rplus_ctx_on_r = False
+                self.h.accessmode = 'r+'
         self.log('ctx', op['do'])
 
     def do_get(self, op):
